@@ -392,6 +392,22 @@ theorem nonPositiveVersion_int {v : Int} (h : 1 ≤ v) : nonPositiveVersion (.in
   simp only [nonPositiveVersion, versionInt, decide_eq_false_iff_not]
   omega
 
+/-- whatever the `Versioned` prologue returns is the remainder applied to some document -/
+theorem deserVersioned_ok {α} {rest : Json → α} {ms : Option (List Mapping)} {d : Json} {y : α}
+    (h : deserVersioned rest ms d = .ok y) : ∃ d', y = rest d' := by
+  simp only [deserVersioned] at h
+  split at h
+  · split at h
+    · cases h
+    · split at h
+      · cases h
+      · split at h
+        · cases h; exact ⟨_, rfl⟩
+        · cases h; exact ⟨_, rfl⟩
+        · rcases bindE_eq_ok h with ⟨d', _, h2⟩
+          cases h2; exact ⟨_, rfl⟩
+  · cases h
+
 /-! ### the Bool equality used by the executable laws is sound -/
 
 mutual
